@@ -166,6 +166,7 @@ func runC12(ctx *Ctx) {
 		}
 		return ro, true
 	}
+	c12d12bStrlen(ctx) // strlen on unknown arguments against its model (c12_d12b.go)
 	byName := map[string]c11Fn{}
 	for _, fn := range fns {
 		byName[fn.name] = fn
